@@ -15,7 +15,7 @@ fn hash_event(t: &mut Tracer, sess: &str, g: Option<&Gen>, msg: &[u8]) {
     t.emit(sess, "sm3.hash", f);
 }
 
-pub fn drive(t: &mut Tracer, tier: &str, seed: u64) {
+pub fn drive(t: &mut Tracer, tier: &str, seed: u64, plan: Option<String>) {
     let thorough = tier == "thorough";
     let mut rng = Rng(seed ^ 0x5113);
     let maxlen = if thorough { 4096 } else { 300 };
@@ -90,6 +90,13 @@ pub fn drive(t: &mut Tracer, tier: &str, seed: u64) {
         hash_event(t, "sm3/crafted", None, &m);
         let mut longer = m.clone(); longer.extend_from_slice(b"...and a tail after the crafted block");
         hash_event(t, "sm3/crafted", None, &longer);
+    }
+    // blocks SOLVED for by the specification (PlanSM3): round 0 feeds a special word (0, 2^i, 2^i +- 1) into P0, register A or P1 -- as the first
+    // block of a 64-byte message or the second block of a 128-byte one; the trace specification re-classifies them (class crafted-value)
+    for (i, v) in crate::suites::sm2::read_plan(&plan).iter().enumerate() {
+        let m: Vec<u8> = v["msg"].as_array().unwrap().iter().map(|x| x.as_u64().unwrap() as u8).collect();
+        hash_event(t, "sm3/value", None, &m);
+        if i % 8 == 0 { let mut longer = m.clone(); longer.extend_from_slice(b"tail"); hash_event(t, "sm3/value", None, &longer); }
     }
     // boundary lengths around multiples of 64 for longer messages
     let g = Gen::new("mix", rng.below(1 << 20));
